@@ -395,6 +395,12 @@ func (e *etcdRig) fullState() string {
 // one atomic step, so a failed guarded transaction can never return a key-value whose mod revision equals the
 // revision it compared with (revisions only grow). Runs on all three engines (on TiKV since fix 1ef9d67: a write conflict
 // used to be answered as a failed compare).
+type c16Ver struct {
+	rev int64
+	val string
+	del bool
+}
+
 func runC16Concurrent(c *harness.Case) {
 	r := c.Rng
 	kind := []string{"memkv", "badger", "tikv"}[r.Intn(3)]
@@ -410,6 +416,32 @@ func runC16Concurrent(c *harness.Case) {
 	var hist []string
 	var wg sync.WaitGroup
 	nFail := int64(0)
+	var succ []c16Ver
+	type c16Read struct {
+		header int64
+		kvs    []*mvccpb.KeyValue
+		limit  int64
+	}
+	var reads []c16Read
+	var stopReaders int32
+	var rwg sync.WaitGroup
+	for ri := 0; ri < 2; ri++ {
+		rwg.Add(1)
+		go func(ri int) {
+			defer rwg.Done()
+			for atomic.LoadInt32(&stopReaders) == 0 {
+				resp, err := srv.Range(context.Background(), &etcdserverpb.RangeRequest{Key: []byte(key), RangeEnd: backend.PrefixEnd([]byte(key)), Limit: int64(ri * 10)})
+				if err == nil {
+					mu.Lock()
+					if len(reads) < 4000 {
+						reads = append(reads, c16Read{header: resp.Header.GetRevision(), kvs: resp.Kvs, limit: int64(ri * 10)})
+					}
+					mu.Unlock()
+				}
+				time.Sleep(time.Duration(30+ri*40) * time.Microsecond)
+			}
+		}(ri)
+	}
 	for ci := 0; ci < 4; ci++ {
 		wg.Add(1)
 		rr := newRand(r.Int63())
@@ -439,6 +471,12 @@ func runC16Concurrent(c *harness.Case) {
 				mu.Unlock()
 				if resp.Succeeded {
 					last = resp.Header.GetRevision()
+					if kindReq != "gdelete" || cmpRev != 0 {
+						// (a delete guarded by mod revision 0 "succeeds" on an absent key without changing anything)
+						mu.Lock()
+						succ = append(succ, c16Ver{rev: last, val: fmt.Sprintf("c%d-%d", ci, i), del: kindReq == "gdelete"})
+						mu.Unlock()
+					}
 					if kindReq == "gdelete" {
 						last = 0
 					}
@@ -464,6 +502,49 @@ func runC16Concurrent(c *harness.Case) {
 		}(ci)
 	}
 	wg.Wait()
+	atomic.StoreInt32(&stopReaders, 1)
+	rwg.Wait()
+	// every concurrent etcd Range must be the key's state at the revision its header names (etcd answers a range at
+	// exactly its header revision; kube-apiserver lists at it and watches from it)
+	sort.Slice(succ, func(i, j int) bool { return succ[i].rev < succ[j].rev })
+	for _, rd := range reads {
+		var cur *c16Ver
+		for i := range succ {
+			if succ[i].rev <= rd.header {
+				cur = &succ[i]
+			}
+		}
+		wantLive := cur != nil && !cur.del
+		ok := (wantLive && len(rd.kvs) == 1 && rd.kvs[0].ModRevision == cur.rev && string(rd.kvs[0].Value) == cur.val) || (!wantLive && len(rd.kvs) == 0)
+		if !ok {
+			mu.Lock()
+			h := append([]string(nil), hist...)
+			mu.Unlock()
+			if len(h) > 80 {
+				h = h[len(h)-80:]
+			}
+			want := "absent"
+			if wantLive {
+				want = fmt.Sprintf("(%q, mod %d)", cur.val, cur.rev)
+			}
+			again, aerr := srv.Range(context.Background(), &etcdserverpb.RangeRequest{Key: []byte(key), RangeEnd: backend.PrefixEnd([]byte(key)), Revision: rd.header})
+			againS := fmt.Sprintf("error %v", aerr)
+			if aerr == nil {
+				againS = fmt.Sprintf("header %d kvs %s", again.Header.GetRevision(), kvDesc(again.Kvs))
+			}
+			var sv []string
+			sv = append(sv, fmt.Sprintf("limit=%d; the same Range asked again afterwards at revision %d answers: %s", rd.limit, rd.header, againS))
+			for _, v := range succ {
+				if v.rev+6 >= rd.header && v.rev <= rd.header+6 {
+					sv = append(sv, fmt.Sprintf("%+v", v))
+				}
+			}
+			c.Violatef("C16 concurrent-range-is-not-the-state-at-its-header-revision", map[string]interface{}{"engine": kind, "requests_tail": h, "acknowledged_successes_near": sv},
+				"a Range issued while transactions were running answered header revision %d with kvs %s; the acknowledged transactions say the key was %s at that revision", rd.header, kvDesc(rd.kvs), want)
+			break
+		}
+	}
+	c.Stat("concurrent_range_reads_checked", int64(len(reads)))
 	c.Stat("concurrent_etcd_requests", int64(len(hist)))
 	c.Stat("concurrent_failed_compares", atomic.LoadInt64(&nFail))
 	c.AddSet("engines", "concurrent-"+kind)
